@@ -36,3 +36,17 @@ Lemma own_output_fixed :
   osmjson_shape (osm_marshal std osm_with_bounds) = true /\
   osm_unmarshal (osm_marshal std osm_with_bounds) = Ok osm_with_bounds.
 Proof. split; vm_compute; reflexivity. Qed.
+
+(* ---- the domain boundary of the round trip: duplicate tag keys --------------------------
+   osm.Tags is a slice, so a Go value CAN hold two tags with the same key; osmjson writes tags
+   as a JSON object, which cannot (and OSM itself does not allow it on an element).  Such a
+   value is outside the property's domain (wf requires distinct keys); what happens to it: the
+   last tag with the key wins and the round trip returns fewer tags. *)
+Definition dup_tags : val := VList [mk_tag ("a", "1"); mk_tag ("a", "2")].
+
+Lemma duplicate_tag_keys_collapse :
+  wf TTags dup_tags = false /\
+  enc std TTags dup_tags = JObj [("a", JStr "2")] /\
+  dec TTags (enc std TTags dup_tags) = Ok (VList [mk_tag ("a", "2")]) /\
+  canon TTags (VList [mk_tag ("a", "2")]) <> canon TTags dup_tags.
+Proof. repeat split; try (vm_compute; reflexivity). vm_compute. discriminate. Qed.
